@@ -25,8 +25,11 @@ type PodExt struct {
 	DelCost *int64 `json:"delCost"`
 	// spec.priority, nil = unset
 	Priority *int32 `json:"priority"`
-	// Succeeded | Failed: a terminal pod (not reschedulable); "" = running
+	// Succeeded | Failed: a terminal pod (not reschedulable); Pending: a pod that is BOUND to its node but still starting
+	// (image pull, init containers: status.phase Pending, PodScheduled=True) — active and reschedulable; "" = running
 	Phase string `json:"phase"`
+	// NotReady: the pod reports the condition Ready=False (running but unhealthy)
+	NotReady bool `json:"notReady,omitempty"`
 }
 
 // NodeExt carries per-node knobs of the consolidation input.
@@ -73,6 +76,10 @@ type PDBExt struct {
 	Allowed int32 `json:"allowed"`
 	// spec.maxUnavailable = 0 (a fully blocking budget)
 	Blocking bool `json:"blocking"`
+	// Form: how a blocking budget is written: "" = maxUnavailable 0, "0%" = maxUnavailable "0%", "100%" = minAvailable "100%"
+	Form string `json:"form,omitempty"`
+	// Policy: spec.unhealthyPodEvictionPolicy, "" (unset) | IfHealthyBudget | AlwaysAllow
+	Policy string `json:"policy,omitempty"`
 }
 
 // PoolTable is the instance-type catalog as ONE NodePool sees it.  Price tables are per NodePool: NodeOverlays and cloud
@@ -86,8 +93,25 @@ type PoolTable struct {
 	ITs  []world.IT `json:"its"`
 }
 
+// OverlayExt is one NodeOverlay (karpenter.sh/v1alpha1, feature gate NodeOverlay): it selects offerings by NodePool /
+// capacity type / instance type and sets an absolute price or a relative priceAdjustment ("-25%", "+0.125").  The real
+// nodeoverlay controller evaluates the overlays once (Reconcile) and the provider is wrapped by overlay.Decorate, as in the
+// operator; RunIn.Tables then states what each NodePool is EXPECTED to be charged: the catalog with the overlay applied ONCE.
+type OverlayExt struct {
+	Name   string   `json:"name"`
+	Weight int32    `json:"weight"`
+	Pool   string   `json:"pool"` // karpenter.sh/nodepool In [Pool]; "" = every NodePool
+	CT     string   `json:"ct"`   // karpenter.sh/capacity-type In [CT]; "" = any
+	ITs    []string `json:"its"`  // node.kubernetes.io/instance-type In ITs; empty = any
+	Adjust string   `json:"adjust"`
+	Price  string   `json:"price"`
+}
+
 type RunIn struct {
-	Scn world.Scenario `json:"scn"`
+	// Overlays: NodeOverlays evaluated by the real controller and served through overlay.Decorate (then Tables is the
+	// expectation only, not installed into the provider)
+	Overlays []OverlayExt   `json:"overlays,omitempty"`
+	Scn      world.Scenario `json:"scn"`
 	// Tables: per-NodePool price tables (served through the provider's per-NodePool GetInstanceTypes)
 	Tables []PoolTable `json:"tables,omitempty"`
 	// MaxITs: the launch cap scheduling.MaxInstanceTypes for this run (0 = the code's default, 600).  The code keeps the
